@@ -76,6 +76,8 @@ def evaluate(case, obs):
                 gid, offs = t["offsets"]
                 have = obs.group_offsets.get(gid, {})
                 for p, o in offs.items():
+                    if p in t.get("offsets_ambiguous", ()):
+                        continue
                     if have.get("src:%s" % p) != o:
                         # a later committed transaction may have overwritten it
                         later = [x for x in obs.txns if x["n"] > t["n"] and x.get("offsets") and x["offsets"][0] == gid
@@ -90,6 +92,8 @@ def evaluate(case, obs):
                 have = obs.group_offsets.get(gid, {})
                 others = [x for x in obs.txns if x is not t and x.get("offsets") and x["offsets"][0] == gid]
                 for p, o in offs.items():
+                    if p in t.get("offsets_ambiguous", ()):
+                        continue
                     if have.get("src:%s" % p) == o and not any(x["offsets"][1].get(p) == o for x in others):
                         out.fail("none_visible", "aborted_offsets_stored", {"txn": t["n"], "offs": offs, "have": have})
         else:
@@ -107,6 +111,26 @@ def evaluate(case, obs):
             out.fail("ends_as_requested", "end_call_failed_under_retriable_faults",
                      {"txn": t["n"], "end": end, "failed_ends": t.get("failed_ends"),
                       "faults": [f[1] for f in c.fault_log][:8]})
+    # every send_offsets_to_transaction() that returned normally was written to the group coordinator: a TxnOffsetCommit
+    # carrying its values was accepted there after the call was made ("all offset commits of a transaction")
+    accepted_toc = [a for a in c.arrivals if a.key == 28 and "txn_index" in a.extra]
+    for s in obs.steps:
+        if s["step"] == "offsets" and s.get("outcome", ("",))[0] == "ok" and s.get("offsets"):
+            gid, offs = s["offsets"]
+            for p, o in offs.items():
+                sent = any(a.body["group"] == gid and a.t >= s["t_call"] and
+                           any(tt["topic"] == "src" and any(pp["partition"] == int(p) and pp["offset"] == o for pp in tt["partitions"])
+                               for tt in a.body["topics"]) for a in accepted_toc)
+                if not sent:
+                    out.fail("all_visible", "acknowledged_offsets_never_written_to_the_group_coordinator",
+                             {"call": {"t_call": s["t_call"], "t_return": s.get("t_return"), "offsets": offs},
+                              "partition": p, "offset": o,
+                              "accepted": [(round(a.t, 4), [(pp["partition"], pp["offset"]) for tt in a.body["topics"] for pp in tt["partitions"]])
+                                           for a in accepted_toc][:8]})
+    if sum(1 for s in obs.steps if s["step"] == "offsets" and any(
+            x is not s and x["step"] == "offsets" and x.get("txn") == s.get("txn") and
+            x["t_call"] <= s["t_call"] and x.get("t_return", 1e9) > s["t_call"] for x in obs.steps)):
+        out.label("send_offsets_called_while_another_call_is_in_progress")
     # records sent outside any transaction must never be in the log
     for s in obs.sends:
         if not s["txn"] and s["id"] in ru:
@@ -248,7 +272,15 @@ def txn_steps(draw, st, nparts, n_txn):
             offs = {str(draw(st.integers(0, 1))): draw(st.integers(0, 50))}
             if draw(st.booleans()):
                 offs[str(2)] = draw(st.integers(0, 50))
-            body.append(["offsets", offs, "g"])
+            if draw(st.integers(0, 2)) == 0:
+                # two tasks of the application report progress on the same group, the second while the first call is
+                # still on its way (AddOffsetsToTxn / FindCoordinator / TxnOffsetCommit in flight)
+                newer = {k: v + draw(st.integers(1, 9)) for k, v in offs.items()}
+                body.append(["par", [[["offsets", offs, "g"]],
+                                     [["sleep", draw(st.sampled_from([0.0, 0.001, 0.002, 0.004, 0.008, 0.02]))],
+                                      ["offsets", newer, "g"]]]])
+            else:
+                body.append(["offsets", offs, "g"])
             if draw(st.booleans()):
                 body.append(["send", draw(st.integers(0, nparts - 1)), 0, False])
         end = draw(st.sampled_from(["commit", "commit", "abort"]))
